@@ -423,7 +423,7 @@ func depthBurst(g int, rs []burstRes) []*NEvent {
 
 // depthSweepPart records the depths b with b % of == part (and the Scale table when withScale).
 func depthSweepPart(ws []*numWriter, rng *rand.Rand, nrand int, full bool, part, of int, withScale bool) {
-	for b := 1; b <= 64; b++ {
+	for b := 0; b <= 64; b++ { // depth 0 (all bounds zero) is outside C16's domain; recorded and compared under its own class
 		if b%of != part {
 			continue
 		}
@@ -434,7 +434,7 @@ func depthSweepPart(ws []*numWriter, rng *rand.Rand, nrand int, full bool, part,
 		w.emit(&NEvent{Op: "MinS", B: b, Y: numOfI64(bd.MinSignedValue())})
 		w.emit(&NEvent{Op: "MaxU", B: b, Y: numOfU64(bd.MaxUnsignedValue())})
 		si := intValues[int64](rng, nrand)
-		if !full {
+		if !full && b > 0 {
 			si = depthValuesS(rng, b, nrand)
 		}
 		for _, x := range si {
@@ -442,7 +442,7 @@ func depthSweepPart(ws []*numWriter, rng *rand.Rand, nrand int, full bool, part,
 			w.emit(&NEvent{Op: "ClipS", B: b, X: numOfI64(x), Y: numOfI64(y), Z: numOfI64(bd.SignedValue(y))})
 		}
 		ui := intValues[uint64](rng, nrand)
-		if !full {
+		if !full && b > 0 {
 			ui = depthValuesU(rng, b, nrand)
 		}
 		for _, x := range ui {
